@@ -11,7 +11,8 @@ CONSTANTS
   MaxArr = 6
   MaxT = 3
   REPS = {1, 2}
+  Garbage = FALSE
   Staged = TRUE
   PsFree = TRUE
   InitSets = {{"p1"}, {"p1", "p2"}}
-INVARIANTS InvAtMostOne InvIsLatest InvValidUnexpiredMember InvNoFalseAlarm InvAlertOnce InvReported InvForgotten InvObserverSane
+INVARIANTS InvAtMostOne InvIsLatest InvValidUnexpiredMember InvNoFalseAlarm InvAlertOnce InvReported InvForgotten InvUsed InvObserverSane
